@@ -1,6 +1,7 @@
 """C18 - decoders of untrusted bytes fail closed: an error, never a panic or endless loop."""
 ID = "C18"
 PROPS = "Props/C18.v"
+COQ_TIMEOUT = 5400   # Coq build of this property incl. rebuilt dependencies; generous: on a loaded machine a rebuild after an upstream edit took > 1500 s
 GEN = ["dec"]
 LEGS = [{"driver": "c18", "runner": ("dec", "Extract/ExtractDec.v", "Dec_model"), "timeout": 3000}]
 
